@@ -276,3 +276,36 @@ pub fn raw_collision_pairs(li: usize, keys: &[KeyCode], limit: usize) -> (Vec<Ra
     }
     (out, fingerprinted, pairs.len() as u64)
 }
+
+/// One remembered look-up, then d = 1..n change_layout calls; after every d, on throw-away duplicates: the modifier set
+/// `mods` is pressed and EVERY key is pressed once.  A remembered look-up whose stamp mixes a generation count with the
+/// input (so that a *different* input matches d generations later) is met at that d.  Returns the distinct
+/// (layout, key index, got) observations with the first d at which each was seen; modifiers and mode are the ones driven.
+pub fn layout_distance_probe(a: usize, b: usize, first: KeyCode, first_numlock_off: bool, mods: u16, mode: usize, keys: &[KeyCode], n: u64) -> Vec<(usize, usize, u32, u64)> {
+    let mut dec: Dec = EventDecoder::new(any_value(a), MODES[mode]);
+    let mut cur = B_NUMLOCK;
+    if first_numlock_off {
+        goto_mods_dec(&mut dec, &mut cur, 0);
+    }
+    let _ = dec.process_keyevent(KeyEvent::new(first, KeyState::Down));
+    let _ = dec.process_keyevent(KeyEvent::new(first, KeyState::Up));
+    let target = if first_numlock_off { mods & !B_NUMLOCK } else { mods | B_NUMLOCK };
+    let mut seen: std::collections::HashMap<(usize, usize, u32), u64> = std::collections::HashMap::new();
+    for d in 1..=n {
+        let li = if d % 2 == 1 { b } else { a };
+        dec.change_layout(any_value(li));
+        let mut f = fork(&dec);
+        let mut c = cur;
+        goto_mods_dec(&mut *f, &mut c, target);
+        for (ki, k) in keys.iter().enumerate() {
+            if MOD_KEYS.contains(k) {
+                continue;
+            }
+            let mut f2 = fork(&*f);
+            let got = f2.process_keyevent(KeyEvent::new(*k, KeyState::Down)).map(dk_enc).unwrap_or(ENC_NONE);
+            seen.entry((li, ki, got)).or_insert(d);
+        }
+    }
+    let _ = target;
+    seen.into_iter().map(|((li, ki, got), d)| (li, ki, got, d)).collect()
+}
